@@ -12,17 +12,17 @@ import (
 
 type fopt func(*spec.Field)
 
-func nn() fopt                { return func(f *spec.Field) { b := false; f.Nullable = &b } }
-func nullable() fopt          { return func(f *spec.Field) { b := true; f.Nullable = &b } }
-func rep() fopt               { return func(f *spec.Field) { f.Repeated = true } }
-func cast(t string) fopt      { return func(f *spec.Field) { f.CastType = t } }
-func custom(t string) fopt    { return func(f *spec.Field) { f.CustomType = t } }
-func embed() fopt             { return func(f *spec.Field) { f.Embed = true; s := ""; f.JSONTag = &s } }
-func stdtime() fopt           { return func(f *spec.Field) { f.StdTime = true } }
-func stddur() fopt            { return func(f *spec.Field) { f.StdDuration = true } }
-func jsontag(t string) fopt   { return func(f *spec.Field) { f.JSONTag = &t } }
-func oneof(i int32) fopt      { return func(f *spec.Field) { f.Oneof = &i } }
-func comment(c string) fopt   { return func(f *spec.Field) { f.Comment = c } }
+func nn() fopt              { return func(f *spec.Field) { b := false; f.Nullable = &b } }
+func nullable() fopt        { return func(f *spec.Field) { b := true; f.Nullable = &b } }
+func rep() fopt             { return func(f *spec.Field) { f.Repeated = true } }
+func cast(t string) fopt    { return func(f *spec.Field) { f.CastType = t } }
+func custom(t string) fopt  { return func(f *spec.Field) { f.CustomType = t } }
+func embed() fopt           { return func(f *spec.Field) { f.Embed = true; s := ""; f.JSONTag = &s } }
+func stdtime() fopt         { return func(f *spec.Field) { f.StdTime = true } }
+func stddur() fopt          { return func(f *spec.Field) { f.StdDuration = true } }
+func jsontag(t string) fopt { return func(f *spec.Field) { f.JSONTag = &t } }
+func oneof(i int32) fopt    { return func(f *spec.Field) { f.Oneof = &i } }
+func comment(c string) fopt { return func(f *spec.Field) { f.Comment = c } }
 
 // F builds a field; numbers are assigned by M.
 func F(name, typ string, opts ...fopt) spec.Field {
@@ -344,11 +344,13 @@ func Atlas() []*spec.Program {
 			F("HTTPServerURL", "string"),
 			F("lower_snake", "string"),
 			F("x_y", "string"),
+			F("CamelTag", "string", jsontag("camelTag,omitempty")),
+			F("CamelList", "string", rep(), jsontag("camelList")),
 			F("port_a_b", "int32"),
 			F("a", "bool"),
 		)
 		cfg := baseConfig("Names")
-		cfg.NameOverrides = map[string]string{"Names.ByPath": "by_path_override", "Names.ByKey": "by_key_override", "Names.Sub.LeafName": "only_in_sub", "Leaf.Other": "everywhere",
+		cfg.NameOverrides = map[string]string{"Names.ByPath": "by_path_override", "Names.ByKey": "byKeyOverride", "Names.Sub.LeafName": "only_in_sub", "Leaf.Other": "everywhere",
 			"Plain": "decoy_bare", "Sub.LeafName": "decoy_rootless", "names.tagged": "decoy_case", "Names.Subs.LeafNam": "decoy_prefix"}
 		out = append(out, prog("a_names", convProps, cfg, nil, leaf, root))
 	}
@@ -374,7 +376,7 @@ func Atlas() []*spec.Program {
 		cfg.RequiredFields = []string{"Flags.Req", "Flags.All", "Leaf.A", "Val", "L1.B", "flags.comp", "Flags.Re"}
 		// ("Leaf.C": computed by the message-qualified key on a nested message, no explicit plan modifiers: the default
 		// UseStateForUnknown applies at every occurrence; "Flags.L1.A": by path, at one occurrence)
-		cfg.ComputedFields = []string{"Flags.Comp", "Flags.All", "Flags.CompPm", "Flags.L1.B", "Flags.L1.A", "Leaf.C", "Flags.Ls", "Sens", "L2.A", "Flags.L1"+".", "Leaf"}
+		cfg.ComputedFields = []string{"Flags.Comp", "Flags.All", "Flags.CompPm", "Flags.L1.B", "Flags.L1.A", "Leaf.C", "Flags.Ls", "Sens", "L2.A", "Flags.L1" + ".", "Leaf"}
 		cfg.SensitiveFields = []string{"Flags.Sens", "Flags.All", "Leaf.C", "Req", "Flags.Ls.", "FLAGS.VAL"}
 		cfg.UseStateForUnknownByDefault = true
 		// excluded fields in the middle of their messages: the fields declared after them keep their own comments
@@ -383,7 +385,7 @@ func Atlas() []*spec.Program {
 			"Val": {spec.SupportPkg + `.V("decoy1")`}, "L1.A": {spec.SupportPkg + `.V("decoy2")`}, "flags.pm": {spec.SupportPkg + `.V("decoy3")`}}
 		cfg.PlanModifiers = map[string][]string{"Flags.Pm": {spec.SupportPkg + `.PM("p1")`}, "Flags.CompPm": {spec.SupportPkg + `.PM("explicit")`}, "Flags.L2.A": {"github.com/hashicorp/terraform-plugin-framework/tfsdk.UseStateForUnknown()", spec.SupportPkg + `.PM("p2")`}}
 		cfg.InjectedFields = map[string][]spec.Injected{
-			"Flags":    {{Name: "id", Type: "github.com/hashicorp/terraform-plugin-framework/types.StringType", TyAbs: "str", Computed: true, PlanModifiers: []string{"github.com/hashicorp/terraform-plugin-framework/tfsdk.UseStateForUnknown()"}}, {Name: "extra", Type: "github.com/hashicorp/terraform-plugin-framework/types.Int64Type", TyAbs: "i64", Optional: true, Validators: []string{spec.SupportPkg + `.V("inj")`}},
+			"Flags": {{Name: "id", Type: "github.com/hashicorp/terraform-plugin-framework/types.StringType", TyAbs: "str", Computed: true, PlanModifiers: []string{"github.com/hashicorp/terraform-plugin-framework/tfsdk.UseStateForUnknown()"}}, {Name: "extra", Type: "github.com/hashicorp/terraform-plugin-framework/types.Int64Type", TyAbs: "i64", Optional: true, Validators: []string{spec.SupportPkg + `.V("inj")`}},
 				{Name: "another", Type: "github.com/hashicorp/terraform-plugin-framework/types.BoolType", TyAbs: "bool", Optional: true}, {Name: "zz_last", Type: "github.com/hashicorp/terraform-plugin-framework/types.StringType", TyAbs: "str", Computed: true}},
 			"Flags.L1": {{Name: "nested_injected", Type: "github.com/hashicorp/terraform-plugin-framework/types.BoolType", TyAbs: "bool", Required: true}},
 		}
